@@ -505,7 +505,11 @@ impl Server {
                             .to_full_url(&self.base_path)
                             .to_override_new_file_op(
                                 &self.base_path,
-                                patch.export_key(&new_key).expect("to have key"),
+                                // the front matter is kept under the old name
+                                patch.with_front_matter(
+                                    &key,
+                                    patch.export_key(&new_key).expect("to have key"),
+                                ),
                             ),
                     ])
                     .collect();
